@@ -388,3 +388,113 @@ Proof.
   - destruct (nth_N (a_nodes st) i); [|intros; exact Hskip]. unfold a_ret_read.
     destruct (bind _ _); [intros; exact Hskip|intros Hd _; apply a_fail_inv; assumption].
 Qed.
+
+(* ------------------------------------------------------------------ whole histories *)
+
+Lemma a_dead_sticky fx st o : a_dead st = true -> fst (a_step fx st o) = st.
+Proof. intros H. unfold a_step. rewrite H. reflexivity. Qed.
+
+Lemma a_run_dead fx h : forall st, a_dead st = true -> fst (a_run fx st h) = st.
+Proof.
+  induction h as [|o r IH]; intros st H; cbn; [reflexivity|].
+  pose proof (a_dead_sticky fx st o H) as E. destruct (a_step fx st o) as [st1 ob]. cbn in E. subst st1.
+  specialize (IH st H). destruct (a_run fx st r). cbn in *. exact IH.
+Qed.
+
+Lemma a_f2_sticky fx st o : a_f2 st = true -> a_f2 (fst (a_step fx st o)) = true.
+Proof.
+  intros H. unfold a_step. destruct (a_dead st); [exact H|].
+  destruct o; cbn [a_step_live]; unfold a_ret_node, a_ret_unit, a_ret_read, a_fail;
+    repeat (match goal with
+            | |- context [match ?x with _ => _ end] => destruct x
+            | |- context [if ?x then _ else _] => destruct x
+            end; cbn [fst a_f2]); rewrite ?H; auto.
+Qed.
+
+Lemma a_run_f2 fx h : forall st, a_f2 st = true -> a_f2 (fst (a_run fx st h)) = true.
+Proof.
+  induction h as [|o r IH]; intros st H; cbn; [exact H|].
+  pose proof (a_f2_sticky fx st o H) as E. destruct (a_step fx st o) as [st1 ob]. cbn in E.
+  specialize (IH st1 E). destruct (a_run fx st1 r). cbn in *. exact IH.
+Qed.
+
+Lemma keeps_refl st : AINV st -> keeps st st.
+Proof. intros Hi. apply keeps_same; auto. Qed.
+
+Lemma take_N_app_ge {A} n (l m : list A) : nlen l <= n -> take_N n (l ++ m) = l ++ take_N (n - nlen l) m.
+Proof.
+  unfold take_N, nlen. intros H. rewrite firstn_app. rewrite firstn_all2 by lia.
+  f_equal. f_equal. lia.
+Qed.
+
+Lemma keeps_trans a b c : keeps a b -> keeps b c -> keeps a c.
+Proof.
+  intros (m1 & M1 & (e1 & E1) & K1) (m2 & M2 & (e2 & E2) & K2).
+  assert (L1 : nlen (take_N m1 (a_nodes a)) = m1) by (rewrite nlen_take; lia).
+  destruct (N.le_gt_cases m2 m1) as [Hle|Hgt].
+  - exists m2. split; [lia|].
+    assert (T : take_N m2 (a_nodes b) = take_N m2 (a_nodes a)).
+    { rewrite E1, take_N_app by lia. apply take_N_take. exact Hle. }
+    split; [exists e2; rewrite E2, T; reflexivity|].
+    intros n Hn. rewrite <- T in Hn. destruct (K2 n Hn) as [V2 D2]. split; [exact V2|]. rewrite D2.
+    apply K1. rewrite T in Hn. rewrite <- (take_N_take m2 m1) in Hn by exact Hle.
+    destruct (take_N_split m2 (take_N m1 (a_nodes a))) as [r Hr]. rewrite Hr. apply in_or_app. now left.
+  - exists m1. split; [exact M1|].
+    assert (T : take_N m2 (a_nodes b) = take_N m1 (a_nodes a) ++ take_N (m2 - m1) e1).
+    { rewrite E1, take_N_app_ge by lia. rewrite L1. reflexivity. }
+    split; [exists (take_N (m2 - m1) e1 ++ e2); rewrite E2, T, app_assoc; reflexivity|].
+    intros n Hn. destruct (K1 n Hn) as [V1 D1].
+    assert (Hn2 : In n (take_N m2 (a_nodes b))) by (rewrite T; apply in_or_app; now left).
+    destruct (K2 n Hn2) as [V2 D2]. split; [exact V2|]. rewrite D2. exact D1.
+Qed.
+
+Theorem ainv_run fx : forall h st, AINV st -> Forall wf_op h ->
+  a_dead (fst (a_run fx st h)) = false -> (fx = true \/ a_f2 (fst (a_run fx st h)) = false) ->
+  AINV (fst (a_run fx st h)) /\ keeps st (fst (a_run fx st h)).
+Proof.
+  induction h as [|o r IH]; intros st Hi Hwf; cbn.
+  - intros _ _. split; [exact Hi|apply keeps_refl; exact Hi].
+  - inversion Hwf as [|? ? Ho Hr]; subst.
+    pose proof (ainv_step fx st o Hi Ho) as S. pose proof (a_run_dead fx r (fst (a_step fx st o))) as Dd.
+    pose proof (a_run_f2 fx r (fst (a_step fx st o))) as Df.
+    destruct (a_step fx st o) as [st1 ob]. cbn [fst] in *.
+    specialize (IH st1). destruct (a_run fx st1 r) as [st2 obs]. cbn [fst] in *.
+    intros Hd Hf.
+    assert (Hd1 : a_dead st1 = false).
+    { destruct (a_dead st1) eqn:E; [|reflexivity]. rewrite (Dd eq_refl) in Hd. congruence. }
+    assert (Hf1 : fx = true \/ a_f2 st1 = false).
+    { destruct Hf as [->|Hf]; [now left|]. right. destruct (a_f2 st1) eqn:E; [|reflexivity].
+      rewrite (Df eq_refl) in Hf. discriminate. }
+    destruct (S Hd1 Hf1) as [I1 K1]. destruct (IH I1 Hr Hd Hf) as [I2 K2].
+    split; [exact I2|eapply keeps_trans; eauto].
+Qed.
+
+Lemma a_init_inv limit st : 1 <= limit -> a_init limit = Ok st -> AINV st /\ heap_limit (a_al st) = limit.
+Proof.
+  intros Hl. unfold a_init. destruct (new_limited limit) as [al|e] eqn:E; [|discriminate].
+  cbn. intros H. apply Ok_inj in H. subst st. destruct (new_limited_ok _ _ E Hl) as (A & B & C).
+  split; [|exact B]. split; cbn; [reflexivity|exact A|constructor|exact I].
+Qed.
+
+(* ------------------------------------------------------------------ failed operations *)
+
+(* an operation that reports an error leaves the allocator, its nodes and its checkpoints exactly
+   as they were (maybe_restore_with_node excepted: its only reachable error, see AllocRestore, is
+   raised after the restore) *)
+Lemma a_step_err_unchanged fx st o st' e :
+  a_step fx st o = (st', ObErr e) -> is_panic e = false ->
+  (forall k i, o <> OMaybeRestore k i) -> st' = st.
+Proof.
+  unfold a_step. destruct (a_dead st); [discriminate|].
+  intros H Hp Hm.
+  assert (F : forall e0, a_fail st e0 = (st', ObErr e) -> st' = st).
+  { intros e0 H0. unfold a_fail in H0. destruct (is_panic e0) eqn:P0.
+    - inversion H0; subst. rewrite P0 in Hp. discriminate.
+    - inversion H0. reflexivity. }
+  destruct o; cbn [a_step_live] in H; unfold a_ret_node, a_ret_unit, a_ret_read in H;
+    try (exfalso; eapply Hm; reflexivity);
+    repeat (match type of H with
+            | context [match ?x with _ => _ end] => destruct x
+            end; try discriminate; try (now apply F in H); try (inversion H; subst; reflexivity));
+    try discriminate.
+Qed.
